@@ -125,6 +125,32 @@ CHECKS['C12'] = dict(
          'variable\'s own guard. Trajectory equality itself follows from determinism and is not decided.',
     design='4/C12', engine='sa.solver_ir + sa.instant')
 
+CHECKS['C13'] = dict(
+    technique=SOLVER_T + 'exhaustive sign/truth table of the lock and unlock decisions against the specified predicate; '
+              'dominance of the self_locking test; placement of the uniform zero clamp by event ordering; symbolic evaluation '
+              'of the self-locking scan of Powertrain.__init__',
+    text='Structural clause only: the lock decision is exactly [self-locking and (pwm = 0 or pwm opposes the motor speed)], the '
+         'release exactly [net motor torque known and with the sign of a non-zero pwm]; the flag is set only under '
+         'Powertrain.self_locking, survives continued runs, and comes from the any-self-locking-worm scan; while locked all '
+         'speeds and accelerations are zeroed after propagation and before the load call and recorder, and the acceleration '
+         'update is skipped. Whether the load can drive the motor also depends on magnitudes: not decided.',
+    design='4/C13', engine='sa.solver_ir + sa.extract.truth_table')
+CHECKS['C14'] = dict(
+    technique='structural recognition of PWMControl.apply_rules (one apply() per rule, identity count) + symbolic evaluation of '
+              'its decision part over count/chosen atoms; exhaustive breakpoint table of the min/max saturation term; setter '
+              'range and who-may-write; ' + SOLVER_T + 'exactly one unconditional apply_rules per controlled instant',
+    text='apply_rules yields default 1 for no proposal, the clipped proposal for exactly one, ValueError for two or more (a '
+         'proposal of 0 counts); saturation equals clip to [-1,1] on every region; the pwm setter rejects values outside [-1,1] and '
+         'is the only writer; the solver applies control once per instant, never skipped, before the motor law and recorder; no '
+         'handler can swallow the conflict error.', design='4/C14', engine='sa.sx + sa.solver_ir')
+CHECKS['C20'] = dict(
+    technique='AST idiom match of the chain walk and rejections in Powertrain.__init__; symbolic evaluation of the self-locking '
+              'scan over the abstract element tuple; read-only/who-may-write census of the two private fields',
+    text='The element tuple is built by following drives from the motor until None with nothing else able to stop or alter the '
+         'walk; unconnected motor and duplicate names are rejected before assembly; self_locking is True exactly when some '
+         'element is a WormGear flagged self-locking; elements and self_locking are setter-less properties returning fields that '
+         'nothing outside __init__ writes.', design='4/C20', engine='ast + sa.solver_ir')
+
 NOT_APPLICABLE = {
     'C04': 'limit statement (error = O(dt) as dt -> 0) against an analytic oracle; no sound static argument in reach '
            'bounds a global discretisation error. Its code-shape ingredients (consistent first-order integrator, torque '
